@@ -111,6 +111,102 @@ theorem dcCommutator_eval (tol : Rat) (A' B : Op) (hA : ∀ e ∈ A', AdmA e.1) 
       Interp.evalOp_cons]
     noncomm_ring
 
+/-! ### outside the contract: the fallback branch, tolerance 0 -/
+
+/-- the weaker condition under which the function still returns the commutator (tolerance 0): every
+term of BOTH operands is the identity, a one-body term or a normal-ordered two-body term -/
+theorem dcStep_eval0 (ta tb : Term) (ca cb : GQ) (hta : AdmB ta) (htb : AdmB tb) (acc : Op) :
+    I.evalOp (dcStep 0 ta ca acc (tb, cb)) =
+      I.evalOp acc + I.ι (ca * cb) * (I.evalT ta * I.evalT tb - I.evalT tb * I.evalT ta) := by
+  rcases hta with rfl | ho | ⟨i, j, m, n, hij, hmn, rfl⟩
+  · exact dcStep_eval h hmul 0 [] tb ca cb (Or.inl rfl) htb acc
+  · exact dcStep_eval h hmul 0 ta tb ca cb (Or.inr (Or.inl ho)) htb acc
+  · by_cases hd : i = m ∧ j = n
+    · obtain ⟨rfl, rfl⟩ := hd
+      exact dcStep_eval h hmul 0 _ tb ca cb (Or.inr (Or.inr ⟨i, j, hij, rfl⟩)) htb acc
+    · rcases htb with rfl | ⟨k, l, rfl⟩ | ⟨k, l, p, q, hkl, hpq, rfl⟩
+      · simp [dcStep]
+      · have : dcStep 0 [(i, 1), (j, 1), (m, 0), (n, 0)] ca acc ([(k, 1), (l, 0)], cb) =
+            dcOneTwo [(i, 1), (j, 1), (m, 0), (n, 0)] [(k, 1), (l, 0)] (ca * cb) acc := by
+          simp [dcStep, fIdx]
+        rw [this, dcOneTwo_eval_swap h k l i j m n (by omega) (by omega)]
+      · by_cases hsame : i = k ∧ j = l ∧ m = p ∧ n = q
+        · obtain ⟨rfl, rfl, rfl, rfl⟩ := hsame
+          simp [dcStep]
+        · have hneq : ([(i, 1), (j, 1), (m, 0), (n, 0)] == [(k, 1), (l, 1), (p, 0), (q, 0)]) = false := by
+            simp only [beq_eq_false_iff_ne, ne_eq, List.cons.injEq, Prod.mk.injEq, and_true, not_and]
+            intro h1 h2 h3 h4; exact hsame ⟨h1, h2, h3, h4⟩
+          have hk : ([(i, 1), (j, 1), (m, 0), (n, 0)] ++ [(k, 1), (l, 1), (p, 0), (q, 0)] : Term) ≠
+              [(k, 1), (l, 1), (p, 0), (q, 0)] ++ [(i, 1), (j, 1), (m, 0), (n, 0)] := by
+            simp only [List.cons_append, List.nil_append, ne_eq, List.cons.injEq, Prod.mk.injEq, and_true, not_and]
+            intro h1 h2 h3 h4; exact absurd ⟨h1, h2, h3, h4⟩ hsame
+          have hdd : (fIdx [(i, 1), (j, 1), (m, 0), (n, 0)] 0 == fIdx [(i, 1), (j, 1), (m, 0), (n, 0)] 2 &&
+              fIdx [(i, 1), (j, 1), (m, 0), (n, 0)] 1 == fIdx [(i, 1), (j, 1), (m, 0), (n, 0)] 3) = false := by
+            simp [fIdx]; intro e1 e2; exact hd ⟨e1, e2⟩
+          have : dcStep 0 [(i, 1), (j, 1), (m, 0), (n, 0)] ca acc ([(k, 1), (l, 1), (p, 0), (q, 0)], cb) =
+              iadd 0 acc (OFV.Model.C07.normalOrdered 0
+                (Dict.set (Dict.set [] ([(i, 1), (j, 1), (m, 0), (n, 0)] ++ [(k, 1), (l, 1), (p, 0), (q, 0)]) (ca * cb))
+                  ([(k, 1), (l, 1), (p, 0), (q, 0)] ++ [(i, 1), (j, 1), (m, 0), (n, 0)]) (-(ca * cb)))) := by
+            unfold dcStep
+            simp only [hneq, hdd, List.isEmpty_cons, Bool.or_self, Bool.false_eq_true, if_false, Bool.and_false,
+              List.length_cons, List.length_nil]
+            simp only [show ((0 + 1 + 1 + 1 + 1 : Nat) == 4) = true from rfl,
+              show ((0 + 1 + 1 + 1 + 1 : Nat) == 2) = false from rfl, Bool.true_and, Bool.and_false, Bool.false_and,
+              hdd, Bool.false_eq_true, if_false]
+          rw [this, Interp.evalOp_iadd]
+          unfold OFV.Model.C07.normalOrdered
+          rw [normalOrdered_sound I .fermion h.relations]
+          have hset : Dict.set (Dict.set ([] : Op) ([(i, 1), (j, 1), (m, 0), (n, 0)] ++ [(k, 1), (l, 1), (p, 0), (q, 0)]) (ca * cb))
+              ([(k, 1), (l, 1), (p, 0), (q, 0)] ++ [(i, 1), (j, 1), (m, 0), (n, 0)]) (-(ca * cb)) =
+              [([(i, 1), (j, 1), (m, 0), (n, 0)] ++ [(k, 1), (l, 1), (p, 0), (q, 0)], ca * cb),
+               ([(k, 1), (l, 1), (p, 0), (q, 0)] ++ [(i, 1), (j, 1), (m, 0), (n, 0)], -(ca * cb))] := by
+            simp only [Dict.set, if_neg hk]
+          rw [hset]
+          simp only [Interp.evalOp_cons, Interp.evalOp_nil, add_zero, Interp.evalT_append, Proofs.C07D.ι_neg']
+          noncomm_ring
+
+theorem dcInner_eval0 (ta : Term) (ca : GQ) (hta : AdmB ta) (B : Op) (hB : ∀ e ∈ B, AdmB e.1) :
+    ∀ acc : Op, I.evalOp (B.foldl (dcStep 0 ta ca) acc) =
+      I.evalOp acc + (I.ι ca * I.evalT ta * I.evalOp B - I.evalOp B * (I.ι ca * I.evalT ta)) := by
+  induction B with
+  | nil => intro acc; simp
+  | cons e B ih =>
+    intro acc
+    obtain ⟨tb, cb⟩ := e
+    simp only [List.foldl_cons]
+    rw [ih (fun e' he' => hB e' (by simp [he'])), dcStep_eval0 h hmul ta tb ca cb hta (hB (tb, cb) (by simp)),
+      Interp.evalOp_cons, hmul]
+    have c1 := I.ι_central cb
+    have c2 := I.ι_central ca
+    simp only
+    have hx : I.evalT ta * I.ι cb = I.ι cb * I.evalT ta := (c1 _).symm
+    have hy : I.evalT tb * I.ι ca = I.ι ca * I.evalT tb := (c2 _).symm
+    have hc : I.ι cb * I.ι ca = I.ι ca * I.ι cb := (c2 _).symm
+    have f1 : I.ι ca * I.evalT ta * (I.ι cb * I.evalT tb) = I.ι ca * I.ι cb * (I.evalT ta * I.evalT tb) := by
+      rw [mul_assoc, ← mul_assoc (I.evalT ta), hx, mul_assoc (I.ι cb), ← mul_assoc]
+    have f2 : I.ι cb * I.evalT tb * (I.ι ca * I.evalT ta) = I.ι ca * I.ι cb * (I.evalT tb * I.evalT ta) := by
+      rw [mul_assoc, ← mul_assoc (I.evalT tb), hy, mul_assoc (I.ι ca), ← mul_assoc, hc]
+    have e1 : I.ι ca * I.ι cb * (I.evalT ta * I.evalT tb - I.evalT tb * I.evalT ta) =
+        I.ι ca * I.evalT ta * (I.ι cb * I.evalT tb) - I.ι cb * I.evalT tb * (I.ι ca * I.evalT ta) := by
+      rw [f1, f2, mul_sub]
+    rw [e1]
+    noncomm_ring
+
+/-- tolerance 0, both operands made of identity / one-body / normal-ordered two-body terms (operator_a
+need NOT be diagonal: the out-of-spec fallback through `normal_ordered` is included) -/
+theorem dcCommutator_eval0 (A' B : Op) (hA : ∀ e ∈ A', AdmB e.1) (hB : ∀ e ∈ B, AdmB e.1) :
+    ∀ prior : Op, I.evalOp (dcCommutator 0 A' B prior) =
+      I.evalOp prior + (I.evalOp A' * I.evalOp B - I.evalOp B * I.evalOp A') := by
+  intro prior
+  rw [dcCommutator_eq]
+  induction A' generalizing prior with
+  | nil => simp
+  | cons e A' ih =>
+    simp only [List.foldl_cons]
+    rw [ih (fun e' he' => hA e' (by simp [he'])), dcInner_eval0 h hmul e.1 e.2 (hA e (by simp)) B hB prior,
+      Interp.evalOp_cons]
+    noncomm_ring
+
 end main
 
 end C07R
